@@ -1,9 +1,12 @@
 #!/bin/bash
-# usage: tools/seedpair.sh <ID> <checks> "<needs a>" "<needs b>"  -- evaluates seeds a and b of /tmp/wt-<ID> sequentially
+# usage: [WT_PREFIX=/tmp/wt3-] [NA=c NB=d] tools/seedpair.sh <ID> <checks> "<needs a>" "<needs b>"
+# evaluates seeds a and b of <WT_PREFIX><ID> sequentially and files them as seeded/<ID>-<NA>, seeded/<ID>-<NB>
 cd /verif
 id=$1; checks=$2
+wt=${WT_PREFIX:-/tmp/wt-}$id
+na=${NA:-a}; nb=${NB:-b}
 head=$(git -C /repo rev-parse HEAD)
-git -C /tmp/wt-$id checkout -q -- . ; git -C /tmp/wt-$id checkout -q --detach $head
-cp /repo/toasty/_libtoasty.c /repo/toasty/_libtoasty.cpython-312-x86_64-linux-gnu.so /tmp/wt-$id/toasty/
-tools/seedtest.py /tmp/wt-$id a $id-a --tests --checks $checks --keep --needs "$3" > /dev/shm/seed-$id-a.log 2>&1
-tools/seedtest.py /tmp/wt-$id b $id-b --tests --checks $checks --keep --needs "$4" > /dev/shm/seed-$id-b.log 2>&1
+git -C $wt checkout -q -- . ; git -C $wt checkout -q --detach $head
+cp /repo/toasty/_libtoasty.c /repo/toasty/_libtoasty.cpython-312-x86_64-linux-gnu.so $wt/toasty/
+tools/seedtest.py $wt a $id-$na --tests --checks $checks --keep --needs "$3" > /dev/shm/seed-$id-$na.log 2>&1
+tools/seedtest.py $wt b $id-$nb --tests --checks $checks --keep --needs "$4" > /dev/shm/seed-$id-$nb.log 2>&1
